@@ -2,29 +2,19 @@
 C01 -- model codecs round-trip every admissible value and report its exact size.
 
 Objects: the codec interpreter `Model/Codec/Interp.lean` (`encode`/`decode`/`size`, closed by fuel in
-`recN`), the admissibility predicate `admN` (`Model/Codec/Adm.lean`), well-formedness `WF` and the
-covered feature set (`Model/Codec/WF.lean`). The theorems hold for **every** schema satisfying the
-decidable predicate `WF`, every type, value, fuel and every transform parameter `T`; the shipped
-schemas are instances (`symbol_wf`, `nem_wf`).
+`recN`), the admissibility predicate `admN` (`Model/Codec/Adm.lean`) and well-formedness `WF`
+(`Model/Codec/WF.lean`). The theorems hold for **every** schema satisfying the decidable predicate `WF`,
+every type, value, fuel and every transform parameter `T`; the shipped schemas are instances
+(`symbol_wf`, `nem_wf`), so `symbol_roundtrip` / `nem_roundtrip` have no hypothesis left but
+admissibility.
 
-FULL STATEMENT (the property as stated, for all well-formed schemas):
-
-    theorem roundtrip : WF S = true → (recN S T n).enc ty v = .ok b → admN S T n ty v = true →
-        (recN S T n).size ty v = .ok b.length ∧ ∀ tail, (recN S T n).dec ty (b ++ tail) = .ok v
-
-PROVED: the same statement with one more decidable hypothesis, `covN S StructDef.covered n ty v`:
-no struct object inside `v` is of a struct definition in which a conditional member is laid out
-*before* its discriminant (`deserialize` parks such members in a temporary buffer; that mechanism is
-not covered by the proof). Everything else is covered: integers of every width/signedness, byte
-arrays, enums and flags, reserved/size/count/byte-size/size-of/size-ref members, counted, sized, fill
-and aligned arrays (sorted or not), size-limited members, conditional members whose discriminant is an
-earlier member (tested on the discriminant or on the member itself), abstract types with factory
-dispatch, inherited headers. For a schema without such definitions the hypothesis disappears
-(`roundtrip_all_covered`); that is the case for the NEM schema (`nem_roundtrip`). In the Symbol schema
-exactly two definitions are outside (`symbol_uncovered`):
-`NamespaceRegistrationTransactionV1`, `EmbeddedNamespaceRegistrationTransactionV1`.
+Covered: integers of every width/signedness, byte arrays, enums and flags, reserved / size / count /
+byte-size / size-of / size-ref members, counted, sized, fill and aligned arrays (sorted or not),
+size-limited members, conditional members whose discriminant is an earlier member (tested on the
+discriminant or on the member itself), unions laid out *before* their discriminant (read through the
+temporary buffer), abstract types with factory dispatch, inherited headers.
 -/
-import SymbolVerif.Proofs.Codec.StructCov
+import SymbolVerif.Proofs.Codec.StructFactory
 import SymbolVerif.Generated.SymbolSchema
 import SymbolVerif.Generated.NemSchema
 namespace SymbolVerif.C01
@@ -34,61 +24,47 @@ variable {S : Schema} {T : String → Bytes → Bytes}
 
 /-- Round trip and size, at every fuel: what `enc` writes for an admissible value is `size` bytes long
     and `dec` reads the value back from it, whatever bytes follow. -/
-theorem roundtrip_partial (hwf : WF S = true) {n : Nat} {ty : String} {v : Val} {b : Bytes}
-    (henc : (recN S T n).enc ty v = .ok b) (hadm : admN S T n ty v = true)
-    (hcov : covN S StructDef.covered n ty v = true) :
+theorem roundtrip (hwf : WF S = true) {n : Nat} {ty : String} {v : Val} {b : Bytes}
+    (henc : (recN S T n).enc ty v = .ok b) (hadm : admN S T n ty v = true) :
     (recN S T n).size ty v = .ok b.length ∧ ∀ tail, (recN S T n).dec ty (b ++ tail) = .ok v :=
-  (recN_ok T hwf StructDef.covered (fun _ h => h) n).law.apply (okN_of_adm_cov S T _ n ty v hadm hcov) henc
-
-/-- The full statement, for schemas all of whose struct definitions are in the covered feature set. -/
-theorem roundtrip_all_covered (hwf : WF S = true) (hall : uncoveredStructs S = []) {n : Nat} {ty : String}
-    {v : Val} {b : Bytes} (henc : (recN S T n).enc ty v = .ok b) (hadm : admN S T n ty v = true) :
-    (recN S T n).size ty v = .ok b.length ∧ ∀ tail, (recN S T n).dec ty (b ++ tail) = .ok v :=
-  roundtrip_partial hwf henc hadm (covN_of_all (covered_of_uncovered_nil hall) n ty v)
+  (recN_ok T hwf n).law.apply hadm henc
 
 /-- `value.size == len(value.serialize())` -/
-theorem size_eq_length_partial (hwf : WF S = true) {ty : String} {v : Val} {b : Bytes}
-    (henc : encode S T ty v = .ok b) (hadm : adm S T ty v = true)
-    (hcov : covN S StructDef.covered (defaultFuel S) ty v = true) :
+theorem size_eq_length (hwf : WF S = true) {ty : String} {v : Val} {b : Bytes}
+    (henc : encode S T ty v = .ok b) (hadm : adm S T ty v = true) :
     size S T ty v = .ok b.length :=
-  (roundtrip_partial hwf henc hadm hcov).1
+  (roundtrip hwf henc hadm).1
 
 /-- `Type.deserialize(value.serialize()) == value` -/
-theorem decode_encode_partial (hwf : WF S = true) {ty : String} {v : Val} {b : Bytes}
-    (henc : encode S T ty v = .ok b) (hadm : adm S T ty v = true)
-    (hcov : covN S StructDef.covered (defaultFuel S) ty v = true) :
+theorem decode_encode (hwf : WF S = true) {ty : String} {v : Val} {b : Bytes}
+    (henc : encode S T ty v = .ok b) (hadm : adm S T ty v = true) :
     decode S T ty b = .ok v := by
-  have := (roundtrip_partial hwf henc hadm hcov).2 []
+  have := (roundtrip hwf henc hadm).2 []
   rw [List.append_nil] at this
   exact this
 
 /-- ... also when more bytes follow the encoding (types are self-delimiting) -/
-theorem decode_encode_prefix_partial (hwf : WF S = true) {ty : String} {v : Val} {b : Bytes}
-    (henc : encode S T ty v = .ok b) (hadm : adm S T ty v = true)
-    (hcov : covN S StructDef.covered (defaultFuel S) ty v = true) (tail : Bytes) :
+theorem decode_encode_prefix (hwf : WF S = true) {ty : String} {v : Val} {b : Bytes}
+    (henc : encode S T ty v = .ok b) (hadm : adm S T ty v = true) (tail : Bytes) :
     decode S T ty (b ++ tail) = .ok v :=
-  (roundtrip_partial hwf henc hadm hcov).2 tail
+  (roundtrip hwf henc hadm).2 tail
 
 /-- Decoding through the factory of the family (`a`: transaction, embedded transaction, block, receipt)
     returns the same concrete object as decoding with the concrete type `c`. -/
-theorem factory_agrees_partial (hwf : WF S = true) {a c : String} {da dc : StructDef}
+theorem factory_agrees (hwf : WF S = true) {a c : String} {da dc : StructDef}
     (hfa : S.find a = some (.struct da)) (hab : da.abstract = true) (hchild : (c, dc) ∈ S.children a)
     {n : Nat} {v : Val} {b : Bytes}
-    (henc : (recN S T n).enc c v = .ok b) (hadm : admN S T n c v = true)
-    (hcov : covN S StructDef.covered n c v = true) (tail : Bytes) :
+    (henc : (recN S T n).enc c v = .ok b) (hadm : admN S T n c v = true) (tail : Bytes) :
     (recN S T n).dec a (b ++ tail) = .ok v ∧ (recN S T n).dec c (b ++ tail) = .ok v := by
-  refine ⟨?_, (roundtrip_partial hwf henc hadm hcov).2 tail⟩
+  refine ⟨?_, (roundtrip hwf henc hadm).2 tail⟩
   cases n with
   | zero => cases henc
   | succ k =>
-    obtain ⟨hea, hok, hcv⟩ := child_at_factory hwf hfa hab hchild (recN S T k) (v := v) (b := b) henc
+    obtain ⟨hea, hok⟩ := child_at_factory hwf hfa hab hchild (recN S T k) (v := v) (b := b) henc
     have hadm' : admN S T (k + 1) a v = true := by
-      show okStep S (fun _ => true) (recN S T k) (admN S T k) a v = true
+      show okStep S (recN S T k) (admN S T k) a v = true
       rw [hok]; exact hadm
-    have hcov' : covN S StructDef.covered (k + 1) a v = true := by
-      show covStep S StructDef.covered (covN S StructDef.covered k) a v = true
-      rw [hcv]; exact hcov
-    exact (roundtrip_partial hwf (n := k + 1) hea hadm' hcov').2 tail
+    exact (roundtrip hwf (n := k + 1) hea hadm').2 tail
 
 /-! ### the shipped schemas -/
 
@@ -96,30 +72,18 @@ theorem symbol_wf : WF Generated.Symbol.schema = true := by decide +kernel
 
 theorem nem_wf : WF Generated.Nem.schema = true := by decide +kernel
 
-/-- the Symbol struct definitions outside the covered feature set (all other shipped types are covered;
-    a value of a covered type is excluded only if it *contains* an object of one of these two, e.g. an
-    aggregate embedding a namespace registration) -/
-theorem symbol_uncovered : uncoveredStructs Generated.Symbol.schema =
-    ["NamespaceRegistrationTransactionV1", "EmbeddedNamespaceRegistrationTransactionV1"] := by decide +kernel
+theorem symbol_roundtrip {T : String → Bytes → Bytes} {n : Nat} {ty : String} {v : Val} {b : Bytes}
+    (henc : (recN Generated.Symbol.schema T n).enc ty v = .ok b)
+    (hadm : admN Generated.Symbol.schema T n ty v = true) :
+    (recN Generated.Symbol.schema T n).size ty v = .ok b.length ∧
+      ∀ tail, (recN Generated.Symbol.schema T n).dec ty (b ++ tail) = .ok v :=
+  roundtrip symbol_wf henc hadm
 
-/-- every NEM struct definition is covered -/
-theorem nem_uncovered : uncoveredStructs Generated.Nem.schema = [] := by decide +kernel
-
-/-- NEM: the full statement, no hypothesis left but admissibility -/
 theorem nem_roundtrip {T : String → Bytes → Bytes} {n : Nat} {ty : String} {v : Val} {b : Bytes}
     (henc : (recN Generated.Nem.schema T n).enc ty v = .ok b) (hadm : admN Generated.Nem.schema T n ty v = true) :
     (recN Generated.Nem.schema T n).size ty v = .ok b.length ∧
       ∀ tail, (recN Generated.Nem.schema T n).dec ty (b ++ tail) = .ok v :=
-  roundtrip_all_covered nem_wf nem_uncovered henc hadm
-
-/-- Symbol: values not containing a namespace-registration object -/
-theorem symbol_roundtrip_partial {T : String → Bytes → Bytes} {n : Nat} {ty : String} {v : Val} {b : Bytes}
-    (henc : (recN Generated.Symbol.schema T n).enc ty v = .ok b)
-    (hadm : admN Generated.Symbol.schema T n ty v = true)
-    (hcov : covN Generated.Symbol.schema StructDef.covered n ty v = true) :
-    (recN Generated.Symbol.schema T n).size ty v = .ok b.length ∧
-      ∀ tail, (recN Generated.Symbol.schema T n).dec ty (b ++ tail) = .ok v :=
-  roundtrip_partial symbol_wf henc hadm hcov
+  roundtrip nem_wf henc hadm
 
 /-! ### non-vacuity: concrete admissible values of shipped types for which the hypotheses hold -/
 
@@ -127,10 +91,9 @@ namespace Examples
 
 def idT : String → Bytes → Bytes := fun _ b => b
 
-/-- all three hypotheses of `roundtrip_partial` at the default fuel, and the length of the encoding -/
+/-- the hypotheses of `roundtrip` at the default fuel, and the length of the encoding -/
 def hyps (S : Schema) (ty : String) (v : Val) (len : Nat) : Bool :=
-  ((encode S idT ty v).toOption.map List.length == some len) && adm S idT ty v &&
-    covN S StructDef.covered (defaultFuel S) ty v
+  ((encode S idT ty v).toOption.map List.length == some len) && adm S idT ty v
 
 def mosaic (id amount : Int) : Val := .struct "UnresolvedMosaic" [("mosaic_id", .int id), ("amount", .int amount)]
 
@@ -201,16 +164,19 @@ example : hyps Generated.Nem.schema "NamespaceRegistrationTransactionV1" (nemNsR
 example : hyps Generated.Nem.schema "NamespaceRegistrationTransactionV1" (nemNsReg (.bytes [98, 99])) 191 = true := by
   decide +kernel
 
-/-- the excluded Symbol definition: admissible, but outside the covered feature set -/
+/-- Symbol namespace registration: a union (`duration` | `parent_id`) laid out before its discriminant
+    `registration_type`; both arms -/
 def nsReg (rt : Int) : Val := .struct "NamespaceRegistrationTransactionV1" [
   ("signature", .bytes (zeros 64)), ("signer_public_key", .bytes (zeros 32)), ("version", .int 1),
   ("network", .int 152), ("type", .int 16718), ("fee", .int 0), ("deadline", .int 1),
   ("duration", if rt == 0 then .int 1000 else .none), ("parent_id", if rt == 1 then .int 99 else .none),
   ("id", .int 5), ("registration_type", .int rt), ("name", .bytes [97, 98])]
 
-example : adm Generated.Symbol.schema idT "NamespaceRegistrationTransactionV1" (nsReg 0) = true ∧
-    covN Generated.Symbol.schema StructDef.covered (defaultFuel Generated.Symbol.schema)
-      "NamespaceRegistrationTransactionV1" (nsReg 0) = false := by decide +kernel
+example : hyps Generated.Symbol.schema "NamespaceRegistrationTransactionV1" (nsReg 0) 148 = true := by decide +kernel
+example : hyps Generated.Symbol.schema "NamespaceRegistrationTransactionV1" (nsReg 1) 148 = true := by decide +kernel
+
+/-- not admissible: both members of the union absent / an absent member holding a value -/
+example : adm Generated.Symbol.schema idT "NamespaceRegistrationTransactionV1" (nsReg 2) = false := by decide +kernel
 
 end Examples
 
